@@ -126,6 +126,7 @@ def classify(cx, pid, spec, results):
             stats['solver_premises_checked'] += 1
             stats['solver_premises_fwdWF'] += int('fwdWF=1' in r['premises'])
             stats['solver_premises_bwdWF'] += int('bwdWF=1' in r['premises'])
+            stats['search_premise_nodupNext'] += int('nodupNext=1' in r['premises'])
         for k, v in r.get('stats', {}).items():
             stats[k] += v
         if r['status'] in ('harness-error', 'model-semprog-error'):
